@@ -150,8 +150,13 @@ class BlockSeries:
                     dimension_names=self.dimension_names,
                 )
 
+            # Index the orders with slices: integer orders would count as advanced
+            # indices, and numpy moves the dimensions of advanced indices separated
+            # by a slice to the front, unlike in the shape computed below.
             packed = BlockSeries(
-                eval=lambda *index: self[item + index].filled(zero),
+                eval=lambda *index: self[
+                    item + tuple(slice(order, order + 1) for order in index)
+                ].filled(zero)[(..., *(0,) * self.n_infinite)],
                 shape=(),
                 n_infinite=self.n_infinite,
             )
